@@ -6,6 +6,7 @@ import (
 	"time"
 
 	"github.com/KevoDB/kevo/pkg/stats"
+	"github.com/KevoDB/kevo/pkg/verifhook"
 )
 
 // Manager implements the TransactionManager interface
@@ -91,6 +92,7 @@ func (m *Manager) BeginTransaction(readOnly bool) (Transaction, error) {
 	// Set transaction as active
 	tx.active.Store(true)
 
+	verifhook.At("tx.begin.before_lock")
 	// Acquire appropriate lock
 	if mode == ReadOnly {
 		m.txLock.RLock()
@@ -100,6 +102,7 @@ func (m *Manager) BeginTransaction(readOnly bool) (Transaction, error) {
 		tx.hasWriteLock.Store(true)
 	}
 
+	verifhook.At("tx.begin.after_lock")
 	return tx, nil
 }
 
